@@ -1,3 +1,6 @@
+import os
+
+
 class Node():
 
     def accept(self, visitor):
@@ -13,3 +16,27 @@ class Node():
 
     def is_bottom(self):
         return False
+
+
+if os.environ.get('HEPHAESTUS_VERIF') == '1':
+    # Verification hook (guarded, add-only): IR nodes that do not define their
+    # own __hash__ are hashed by creation order instead of by id(), so that
+    # iteration over sets/dicts of nodes - and hence generation for a given
+    # seed - does not depend on memory addresses. The serial lives in
+    # __dict__, so it survives deepcopy and pickle.
+    import itertools as _itertools
+    _serial = _itertools.count(1)
+
+    def _node_new(cls, *args, **kwargs):
+        obj = object.__new__(cls)
+        obj.__dict__['_verif_serial'] = next(_serial)
+        return obj
+
+    def _node_hash(self):
+        try:
+            return self.__dict__['_verif_serial']
+        except KeyError:
+            return object.__hash__(self)
+
+    Node.__new__ = _node_new
+    Node.__hash__ = _node_hash
